@@ -153,10 +153,13 @@ theorem untouched_preserved_extend_partial (cfg : Cfg) (hk : cfg.extKeepAll = tr
 
 /-- with every `_extend_*` fix in place (`Cfg.fixed`, the variant of /repo HEAD) `TypeKept` is plain equality of the attributes -/
 theorem typeKept_fixed (t t' : TypeO) (k : TypeKept Cfg.fixed t t') :
-    t'.name = t.name ∧ t'.kind = t.kind ∧ t'.desc = t.desc ∧ t'.dres = t.dres ∧ t'.rtype = t.rtype ∧ ∃ added, t'.values = t.values ++ added := by
-  obtain ⟨h1, h2, _, h4, h5, h6, h7⟩ := k
-  refine ⟨h1, h2, by simpa [Cfg.fixed] using h4, by simpa [Cfg.fixed] using h5, ?_, h7⟩
-  cases hk : t.kind <;> simp [hk, Cfg.fixed] at h6 <;> exact h6
+    t'.name = t.name ∧ t'.kind = t.kind ∧ t'.desc = t.desc ∧ t'.dres = t.dres ∧ t'.rtype = t.rtype ∧ (∃ added, t'.values = t.values ++ added) ∧
+    ((t.kind = Kind.scalar ∨ t.kind = Kind.enum) → t'.cls = t.cls) := by
+  obtain ⟨h1, h2, _, h4, h5, h6, h7, h8⟩ := k
+  refine ⟨h1, h2, by simpa [Cfg.fixed] using h4, by simpa [Cfg.fixed] using h5, ?_, h7, ?_⟩
+  · cases hk : t.kind <;> simp [hk, Cfg.fixed] at h6 <;> exact h6
+  · intro hl
+    rcases hl with hl | hl <;> simpa [hl, Cfg.fixed] using h8
 
 /-- the type-resolver clause of S2 at full strength for the fixed variant (the statement refuted for `Cfg.legacy` by
     `extend_keeps_type_resolvers_refuted_legacy`), for schemas with distinct names -/
